@@ -174,6 +174,52 @@ fn run_on_this_thread(only: Option<&str>) -> L2Report {
             });
         }
     }
+    // bystanders: every other public API call, over ordinary inputs and all
+    // its error paths, must leave the thread's mode exactly as it was
+    {
+        use crate::gen::{MISC_FLOATS, MISC_STRS};
+        use crate::ops::MISC_NAMES;
+        let decs: [crate::ops::Dec; 6] = [
+            (25, 1),
+            (-731911, 7),
+            (0, 3),
+            (i128::MAX - 5, 0),
+            (i128::MIN + 7, 2),
+            (1, 18),
+        ];
+        for which in 0..MISC_NAMES.len() as u8 {
+            let mut reported = false;
+            for m in [7usize, 3, 0] {
+                for (i, x) in MISC_FLOATS.iter().enumerate() {
+                    for (j, a) in decs.iter().enumerate() {
+                        let op = Op::Misc {
+                            which,
+                            a: *a,
+                            b: decs[(j + i) % decs.len()],
+                            x: x.to_bits(),
+                            s: MISC_STRS[(i + j) % MISC_STRS.len()].to_string(),
+                        };
+                        RoundingMode::set_default(MODES[m]);
+                        let _ = exec_plain(&op);
+                        let after = mode_index(RoundingMode::default());
+                        if after as usize != m && !reported {
+                            reported = true;
+                            failures.push(L2Failure {
+                                kind: "bystander-changed-mode".into(),
+                                family: format!("misc/{}", MISC_NAMES[which as usize]),
+                                detail: format!(
+                                    "thread mode {} before `{}`, {} after (a call that has no business with the rounding mode)",
+                                    MODE_NAMES[m],
+                                    op.to_text(),
+                                    MODE_NAMES[after as usize]
+                                ),
+                            });
+                        }
+                    }
+                }
+            }
+        }
+    }
     let fams = families();
     let mut witness_evals = 0;
     let mut sample = String::new();
